@@ -76,18 +76,35 @@ def step (cfg : Cfg) (st : St) (c : Char) : Option St :=
     else if c == '0' || c == '1' then some .bin
     else none
 
+/-- the digit counters of the loop, as flags: a hexadecimal digit was seen in a hexadecimal mantissa
+(`mantissa_digits > 0`), a digit was seen in the exponent (`exponent_digits > 0`) -/
+structure Flags where
+  mant : Bool
+  exp : Bool
+  deriving DecidableEq, Repr
+
+/-- the counter updates of one loop iteration (the `_` skip of the underscore feature counts nothing) -/
+def mark (cfg : Cfg) (st : St) (c : Char) (f : Flags) : Flags :=
+  if cfg.us && c == '_' then f else
+  match st with
+  | .hex | .hexFloat => if isHexDigit c then { f with mant := true } else f
+  | .expo => if isDigit c then { f with exp := true } else f
+  | .expoSign => if !isSign c && isDigit c then { f with exp := true } else f
+  | _ => f
+
 /-- the state the loop is left in (`expoSign` is only a position inside `WithExpo`) -/
 def settle : St → St
   | .expoSign => .expo
   | st => st
 
-/-- the main `while` loop: state, remaining text, chars consumed so far ↦ final state, consumed, rest -/
-def scan (cfg : Cfg) : St → List Char → Nat → St × Nat × List Char
-  | st, [], n => (settle st, n, [])
-  | st, c :: rest, n =>
+/-- the main `while` loop: state, remaining text, chars consumed so far, counters ↦ final state, consumed,
+rest, counters -/
+def scan (cfg : Cfg) : St → List Char → Nat → Flags → St × Nat × List Char × Flags
+  | st, [], n, f => (settle st, n, [], f)
+  | st, c :: rest, n, f =>
     match step cfg st c with
-    | some st' => scan cfg st' rest (n + 1)
-    | none => (settle st, n, c :: rest)
+    | some st' => scan cfg st' rest (n + 1) (mark cfg st c f)
+    | none => (settle st, n, c :: rest, f)
 
 /-- the `'0' => loop { … }` prefix: `0x`, `0b` (feature), skipping `_` (feature) -/
 def zeroPrefix (cfg : Cfg) : List Char → Nat → St × Nat × List Char
@@ -102,15 +119,20 @@ def takeWhileCount (p : Char → Bool) : List Char → Nat
   | [] => 0
   | c :: rest => if p c then takeWhileCount p rest + 1 else 0
 
-/-- the tail of `lex_number` after the main loop -/
-def finish (cfg : Cfg) (st : St) (n : Nat) (rest : List Char) : Out :=
+/-- the "malformed number" test after the loop: a hexadecimal numeral without any hexadecimal digit, or an
+exponent without any digit -/
+def malformed (isHex : Bool) (st : St) (f : Flags) : Bool :=
+  (isHex && !f.mant) || (decide (st = .expo) && !f.exp)
+
+/-- the tail of `lex_number` after the main loop; `mal` = the malformed-number error was pushed -/
+def finish (cfg : Cfg) (st : St) (n : Nat) (rest : List Char) (mal : Bool) : Out :=
   let cur := rest.head?
-  if cfg.cplx && (cur == some 'i' || cur == some 'I') then ⟨.TkComplex, n + 1, false⟩
+  if cfg.cplx && (cur == some 'i' || cur == some 'I') then ⟨.TkComplex, n + 1, mal⟩
   else if cfg.ll && (st = .int || st = .hex || st = .bin) then
-    ⟨.TkInt, n + takeWhileCount (fun c => c == 'u' || c == 'U' || c == 'l' || c == 'L') rest, false⟩
+    ⟨.TkInt, n + takeWhileCount (fun c => c == 'u' || c == 'U' || c == 'l' || c == 'L') rest, mal⟩
   else
     let err := match cur with | some c => isAlpha c | none => false
-    ⟨if st = .int || st = .hex then .TkInt else .TkFloat, n, err⟩
+    ⟨if st = .int || st = .hex then .TkInt else .TkFloat, n, mal || err⟩
 
 def lexNumber (cfg : Cfg) : List Char → Option Out
   | [] => none
@@ -119,8 +141,8 @@ def lexNumber (cfg : Cfg) : List Char → Option Out
       if first == '0' then zeroPrefix cfg rest 1
       else if first == '.' then (.float, 1, rest)
       else (.int, 1, rest)
-    let (st', n', rest'') := scan cfg st rest' n
-    some (finish cfg st' n' rest'')
+    let (st', n', rest'', f) := scan cfg st rest' n ⟨false, false⟩
+    some (finish cfg st' n' rest'' (malformed (decide (st = .hex)) st' f))
 
 /-! ## The manual's numeral grammar (§3.1), as data
 
